@@ -1892,7 +1892,8 @@ class Network(Cached):
             nodew = sp.csc_matrix(np.eye(self.N) * self.node_weights)
         if key is None:
             # pylint: disable=possibly-used-before-assignment
-            A = self.sp_Aplus() * nodew if nsi else self.sp_A
+            #  (closed walk counts overflow the int16 adjacency matrix)
+            A = self.sp_Aplus() * nodew if nsi else self.sp_A.astype(np.int64)
             AT = self.sp_Aplus().T * nodew if nsi else A.T
         else:
             M = sp.csc_matrix(self.link_attribute(key)**(1/3.))
